@@ -312,3 +312,9 @@ def run(F, rep):
             rep.check(not w, 'C18.Q1', g.short + '/%d' % len(g.params), g.where(), '%s is const but writes %s' % (g.short, sorted(w)), 'writes nothing')
     if n_q < 15:
         raise AnalysisBroken('C18.Q1: only %d const member functions of Variable found' % n_q)
+
+    # ------------------------------------------------------------------ every entry of an equivalence list is handled
+    from engines import rule_take_while
+    rule_take_while(F, rep, 'C18.T1', lambda g: '/src/' in g.file, 'the library')
+
+
